@@ -70,7 +70,8 @@ if [[ -n "${INPUT_OUTPUT_FILE:-}" ]]; then
     echo "Both output_dir and output_file were set; choose one." >&2
     exit 1
   fi
-  args+=("${INPUT_OUTPUT_FILE}")
+  # "--" ends the options: --mutators takes one or more values and would otherwise swallow the file
+  args+=(-- "${INPUT_OUTPUT_FILE}")
 fi
 
 if [[ ${#args[@]} -eq 0 ]]; then
